@@ -3,6 +3,7 @@
   finite-set laws, domain errors, arity errors, type predicates.  Core Lean only.
 -/
 import LispModel.Core
+import LispModel.Eval
 namespace LispModel.CoreLaws
 open LispModel LispModel.Core
 
@@ -426,3 +427,1276 @@ theorem conj_vector (ys p) (xs : List Val) (h1 : xs ≠ []) (hl : xs.length < 10
   rw [callOk, call_conj _ _ h1 hl]; rfl
 theorem conj_no_items_error (s : Val) : callErr "conj" [s] :=
   callErr_of (variadic_arity_error_min (name := "conj") rfl _ (by simp)) rfl
+
+theorem variadic_arity_error_1000 {name mn} (hs : Core.sigOf name = some (.variadic mn none)) (args : List Val)
+    (hl : 1000 < args.length) : Core.call name args = some (.goerr "wrong number of arguments") := by
+  by_cases h : args.length < mn <;> simp [Core.call, hs, Core.checkSig, hl, h]
+
+/-- `ss` are lists/vectors with element lists `xss`, position by position -/
+def Seqs : List Val → List (List Val) → Prop
+  | [], [] => True
+  | s :: ss, xs :: xss => Seq s xs ∧ Seqs ss xss
+  | _, _ => False
+
+theorem Seqs_all {ss xss} (h : Seqs ss xss) : ss.all (fun x => (seqOf? x).isSome) = true := by
+  induction ss generalizing xss with
+  | nil => rfl
+  | cons s ss ih =>
+    cases xss with
+    | nil => cases h
+    | cons xs xss => simp [List.all_cons, h.1, ih h.2]
+
+theorem Seqs_flat {ss xss} (h : Seqs ss xss) : ss.flatMap (fun x => (seqOf? x).getD []) = xss.flatten := by
+  induction ss generalizing xss with
+  | nil => cases xss with
+    | nil => rfl
+    | cons => cases h
+  | cons s ss ih =>
+    cases xss with
+    | nil => cases h
+    | cons xs xss => simp [List.flatMap_cons, h.1, ih h.2]
+
+theorem concat_body (ss : List Val) : Core.body "concat" ss = (match ss with
+     | [] => .ok (.list [] none)
+     | _ => if ss.all (fun x => (seqOf? x).isSome) then .ok (.list (ss.flatMap (fun x => (seqOf? x).getD [])) none)
+            else .goerr "GetSlice called on non-sequence") := rfl
+
+/-- `(concat s₁ … sₙ)` is the LIST of all the elements in order -/
+theorem concat_spec {ss xss} (h : Seqs ss xss) (hl : ss.length ≤ 1000) :
+    callOk "concat" ss (.list xss.flatten none) := by
+  rw [callOk, call_var rfl ss hl, concat_body]
+  cases ss with
+  | nil => cases xss with
+    | nil => rfl
+    | cons => cases h
+  | cons s ss => simp only []; rw [Seqs_all h, Seqs_flat h]; rfl
+
+theorem concat_non_seq_error (ss : List Val) (x : Val) (hx : x ∈ ss) (hn : seqOf? x = none) :
+    callErr "concat" ss := by
+  by_cases hl : ss.length ≤ 1000
+  · refine callErr_of (call_var rfl ss hl) ?_
+    rw [concat_body]
+    cases ss with
+    | nil => cases hx
+    | cons s ss =>
+      have : (s :: ss).all (fun x => (seqOf? x).isSome) = false := by
+        rw [List.all_eq_false]; exact ⟨x, hx, by simp [hn]⟩
+      simp only []; rw [this]; rfl
+  · exact callErr_of (variadic_arity_error_1000 (name := "concat") rfl ss (by omega)) rfl
+
+theorem concat_assoc {a b c xs ys zs} (ha : Seq a xs) (hb : Seq b ys) (hc : Seq c zs) :
+    ∃ ab bc r, callOk "concat" [a, b] ab ∧ callOk "concat" [b, c] bc ∧
+      callOk "concat" [ab, c] r ∧ callOk "concat" [a, bc] r ∧ callOk "concat" [a, b, c] r ∧
+      r = .list (xs ++ ys ++ zs) none := by
+  refine ⟨_, _, _, concat2 ha hb, concat2 hb hc, concat2 (Seq_list _ _) hc, ?_, ?_, rfl⟩
+  · have := concat2 ha (Seq_list (ys ++ zs) none)
+    rwa [← List.append_assoc] at this
+  · have := concat_spec (ss := [a, b, c]) (xss := [xs, ys, zs]) ⟨ha, hb, hc, trivial⟩ (by simp)
+    simpa using this
+
+theorem count_concat {a b xs ys} (ha : Seq a xs) (hb : Seq b ys) :
+    ∃ r, callOk "concat" [a, b] r ∧ callOk "count" [a] (.int xs.length) ∧ callOk "count" [b] (.int ys.length) ∧
+      callOk "count" [r] (.int (xs.length + ys.length)) := by
+  refine ⟨_, concat2 ha hb, count_seq ha, count_seq hb, ?_⟩
+  have := count_list (xs ++ ys) none
+  simpa using this
+
+theorem nth_cons_zero {s xs} (x : Val) (h : Seq s xs) :
+    ∃ r, callOk "cons" [x, s] r ∧ callOk "nth" [r, .int 0] x :=
+  ⟨_, cons_prepends x h, nth_spec (Seq_list (x :: xs) none) 0 (by simp)⟩
+
+theorem nth_cons_succ {s xs} (x : Val) (h : Seq s xs) (i : Int) (hi : 0 ≤ i) :
+    ∃ r, callOk "cons" [x, s] r ∧ Core.call "nth" [r, .int (i + 1)] = Core.call "nth" [s, .int i] := by
+  refine ⟨_, cons_prepends x h, ?_⟩
+  rw [nth_eq, nth_eq, h]
+  have e : seqOf? (.list (x :: xs) none) = some (x :: xs) := rfl
+  rw [e]
+  have h1 : ¬ (i + 1 < 0) := by omega
+  have h2 : ¬ (i < 0) := by omega
+  have h3 : (i + 1).toNat = i.toNat + 1 := by omega
+  simp only [h1, h2, if_false, h3, List.length_cons, Nat.add_lt_add_iff_right, List.getD_cons_succ]
+
+theorem rangeList_length (n : Nat) (f : Int) : (rangeList n f).length = n := by
+  induction n generalizing f with
+  | zero => rfl
+  | succ n ih => simp [rangeList, ih]
+
+theorem rangeList_get (n : Nat) (f : Int) (i : Nat) (h : i < (rangeList n f).length) :
+    (rangeList n f)[i] = .int (f + i) := by
+  induction n generalizing f i with
+  | zero => simp [rangeList] at h
+  | succ n ih =>
+    cases i with
+    | zero => simp [rangeList]
+    | succ i =>
+      simp only [rangeList, List.getElem_cons_succ]
+      rw [ih]; congr 1; omega
+
+theorem range_eq (f t : Int) : callOk "range" [.int f, .int t] (.vec (rangeList (t - f).toNat f) none) := rfl
+
+theorem range_spec (f t : Int) : ∃ es, callOk "range" [.int f, .int t] (.vec es none) ∧
+    es.length = (t - f).toNat ∧ ∀ i (h : i < es.length), es[i] = .int (f + i) :=
+  ⟨_, range_eq f t, rangeList_length _ _, rangeList_get _ _⟩
+
+theorem range_empty (f t : Int) (h : t ≤ f) : callOk "range" [.int f, .int t] (.vec [] none) := by
+  have : (t - f).toNat = 0 := by omega
+  rw [callOk, range_eq, this]; rfl
+
+theorem vec_of_seq {s xs} (h : Seq s xs) : callOk "vec" [s] (.vec xs none) := by
+  rcases Seq_cases h with ⟨p, rfl⟩ | ⟨p, rfl⟩ <;> rfl
+theorem vec_of_set (ks : List String) : callOk "vec" [.set ks] (.vec (ks.map .str) none) := rfl
+theorem vec_nil_error : callErr "vec" [.nil] := callErr_of rfl rfl
+theorem vec_map_error (m) : callErr "vec" [.map m] := callErr_of rfl rfl
+
+theorem seq_nil : callOk "seq" [.nil] .nil := rfl
+theorem seq_empty {s} (h : Seq s []) : callOk "seq" [s] .nil := by
+  rcases Seq_cases h with ⟨p, rfl⟩ | ⟨p, rfl⟩ <;> rfl
+theorem seq_list (x : Val) (xs p) : callOk "seq" [.list (x :: xs) p] (.list (x :: xs) p) := rfl
+theorem seq_vector (x : Val) (xs p) : callOk "seq" [.vec (x :: xs) p] (.list (x :: xs) none) := rfl
+theorem seq_set (ks : List String) : callOk "seq" [.set ks] (.list (ks.map .str) none) := rfl
+theorem seq_map_error (m) : callErr "seq" [.map m] := callErr_of rfl rfl
+theorem seq_nonempty {s xs} (h : Seq s xs) (hne : xs ≠ []) : ∃ p, callOk "seq" [s] (.list xs p) := by
+  cases xs with
+  | nil => exact absurd rfl hne
+  | cons x xs => rcases Seq_cases h with ⟨p, rfl⟩ | ⟨p, rfl⟩ <;> exact ⟨_, rfl⟩
+
+theorem empty?_seq {s xs} (h : Seq s xs) : callOk "empty?" [s] (.bool xs.isEmpty) := by
+  rcases Seq_cases h with ⟨p, rfl⟩ | ⟨p, rfl⟩ <;> rfl
+theorem empty?_nil : callOk "empty?" [.nil] (.bool true) := rfl
+theorem empty?_map (m) : callOk "empty?" [.map m] (.bool m.isEmpty) := rfl
+theorem empty?_set (s) : callOk "empty?" [.set s] (.bool s.isEmpty) := rfl
+theorem list_spec (xs : List Val) (hl : xs.length ≤ 1000) : callOk "list" xs (.list xs none) := by
+  rw [callOk, call_var rfl xs hl]; rfl
+theorem vector_spec (xs : List Val) (hl : xs.length ≤ 1000) : callOk "vector" xs (.vec xs none) := by
+  rw [callOk, call_var rfl xs hl]; rfl
+
+/-! ### maps, second batch -/
+
+theorem akeys_ainsert {α} (k : String) (v : α) (m : List (String × α)) :
+    akeys (ainsert k v m) = if k ∈ akeys m then akeys m else akeys m ++ [k] := by
+  induction m with
+  | nil => simp [ainsert, akeys]
+  | cons kv r ih =>
+    obtain ⟨k', v'⟩ := kv
+    by_cases h : k' = k
+    · subst h; simp [ainsert, akeys]
+    · have h' : ¬ k = k' := fun e => h e.symm
+      simp only [akeys] at ih
+      simp only [ainsert, h, if_false, akeys, List.map_cons, List.mem_cons, h', false_or, ih]
+      split <;> simp_all
+
+theorem ainsert_nodup {α} (k : String) (v : α) {m : List (String × α)} (h : (akeys m).Nodup) :
+    (akeys (ainsert k v m)).Nodup := by
+  rw [akeys_ainsert]
+  split
+  · exact h
+  · rename_i hk
+    refine List.nodup_append.2 ⟨h, by simp, ?_⟩
+    intro a ha b hb e
+    simp at hb; subst hb; subst e; exact hk ha
+
+theorem aerase_sublist {α} (k : String) (m : List (String × α)) : (aerase k m).Sublist m := by
+  induction m with
+  | nil => exact .slnil
+  | cons kv r ih =>
+    obtain ⟨k', v'⟩ := kv
+    by_cases h : k' = k
+    · simp only [aerase, h, if_true]; exact .cons _ (List.Sublist.refl _)
+    · simp only [aerase, h, if_false]; exact .cons_cons _ ih
+
+theorem aerase_nodup {α} (k : String) {m : List (String × α)} (h : (akeys m).Nodup) :
+    (akeys (aerase k m)).Nodup :=
+  List.Sublist.nodup ((aerase_sublist k m).map _) h
+
+theorem alookup_aerase_other {α} {k k' : String} (h : k ≠ k') (m : List (String × α)) :
+    alookup k' (aerase k m) = alookup k' m := by
+  induction m with
+  | nil => rfl
+  | cons kv r ih =>
+    obtain ⟨k2, v2⟩ := kv
+    by_cases h2 : k2 = k
+    · subst h2; simp [aerase, alookup, h]
+    · by_cases h3 : k2 = k'
+      · subst h3; simp [aerase, alookup, h2]
+      · simp [aerase, alookup, h2, h3, ih]
+
+theorem alookup_aerase_same {α} (k : String) {m : List (String × α)} (h : (akeys m).Nodup) :
+    alookup k (aerase k m) = none := by
+  induction m with
+  | nil => rfl
+  | cons kv r ih =>
+    obtain ⟨k2, v2⟩ := kv
+    simp only [akeys, List.map_cons, List.nodup_cons] at h
+    by_cases h2 : k2 = k
+    · subst h2
+      simp only [aerase, if_true]
+      exact (alookup_eq_none_iff _ _).2 h.1
+    · simp only [aerase, h2, if_false, alookup]
+      exact ih h.2
+
+/-- the entries `kvs` written one after the other into `m` (Go: `m[k] = v` in a loop) -/
+def insertAll (m kvs : List (String × Val)) : List (String × Val) :=
+  kvs.foldl (fun acc kv => ainsert kv.1 kv.2 acc) m
+
+/-- the flat argument list `k₁ v₁ k₂ v₂ …` -/
+def flatKV (kvs : List (String × Val)) : List Val := kvs.flatMap fun kv => [.str kv.1, kv.2]
+
+theorem flatKV_length (kvs) : (flatKV kvs).length = 2 * kvs.length := by
+  induction kvs with
+  | nil => rfl
+  | cons kv r ih => simp only [flatKV, List.flatMap_cons, List.length_append] at *; simp [ih]; omega
+
+theorem insertAll_nodup {m} (kvs) (h : (akeys m).Nodup) : (akeys (insertAll m kvs)).Nodup := by
+  induction kvs generalizing m with
+  | nil => exact h
+  | cons kv r ih => exact ih (ainsert_nodup _ _ h)
+
+theorem ainsert_not_mem {α} {k : String} (v : α) {m : List (String × α)} (h : k ∉ akeys m) :
+    ainsert k v m = m ++ [(k, v)] := by
+  induction m with
+  | nil => rfl
+  | cons kv r ih =>
+    obtain ⟨k', v'⟩ := kv
+    simp only [akeys, List.map_cons, List.mem_cons, not_or] at h
+    have h' : ¬ k' = k := fun e => h.1 e.symm
+    simp only [ainsert, h', if_false, List.cons_append]
+    rw [ih h.2]
+
+theorem insertAll_fresh {m kvs} (h : (akeys m ++ akeys kvs).Nodup) : insertAll m kvs = m ++ kvs := by
+  induction kvs generalizing m with
+  | nil => simp [insertAll]
+  | cons kv r ih =>
+    have hk : kv.1 ∉ akeys m := by
+      intro hm
+      have := (List.nodup_append.1 h).2.2 _ hm kv.1 (by simp [akeys])
+      exact this rfl
+    have e : insertAll m (kv :: r) = insertAll (ainsert kv.1 kv.2 m) r := rfl
+    rw [e, ainsert_not_mem _ hk, ih]
+    · simp
+    · simpa [akeys, List.append_assoc] using h
+
+theorem alookup_insertAll {m kvs} (h : (akeys kvs).Nodup) (k : String) :
+    alookup k (insertAll m kvs) = (match alookup k kvs with | some v => some v | none => alookup k m) := by
+  induction kvs generalizing m with
+  | nil => rfl
+  | cons kv r ih =>
+    obtain ⟨k1, v1⟩ := kv
+    simp only [akeys, List.map_cons, List.nodup_cons] at h
+    have e : insertAll m ((k1, v1) :: r) = insertAll (ainsert k1 v1 m) r := rfl
+    rw [e, ih h.2]
+    by_cases hk : k1 = k
+    · subst hk
+      have : alookup k1 r = none := (alookup_eq_none_iff _ _).2 h.1
+      simp [this, alookup, alookup_ainsert_same]
+    · simp only [alookup, hk, if_false]
+      rw [alookup_ainsert_other hk]
+
+theorem assocMap_flat (kvs m) : assocMap (flatKV kvs) m = .ok (.map (insertAll m kvs)) := by
+  induction kvs generalizing m with
+  | nil => simp [flatKV, assocMap, insertAll]
+  | cons kv r ih =>
+    have : flatKV (kv :: r) = .str kv.1 :: kv.2 :: flatKV r := by simp [flatKV]
+    rw [this, assocMap, ih]; rfl
+theorem conjMap_flat (kvs m) : conjMap (flatKV kvs) m = .ok (.map (insertAll m kvs)) := by
+  induction kvs generalizing m with
+  | nil => simp [flatKV, conjMap, insertAll]
+  | cons kv r ih =>
+    have : flatKV (kv :: r) = .str kv.1 :: kv.2 :: flatKV r := by simp [flatKV]
+    rw [this, conjMap, ih]; rfl
+theorem newHashMapLoop_flat (kvs m) : newHashMapLoop (flatKV kvs) m = .ok (.map (insertAll m kvs)) := by
+  induction kvs generalizing m with
+  | nil => simp [flatKV, newHashMapLoop, insertAll]
+  | cons kv r ih =>
+    have : flatKV (kv :: r) = .str kv.1 :: kv.2 :: flatKV r := by simp [flatKV]
+    rw [this, newHashMapLoop, ih]; rfl
+
+theorem body_assoc (xs : List Val) : Core.body "assoc" xs = Core.assoc xs := rfl
+theorem body_dissoc (xs : List Val) : Core.body "dissoc" xs = Core.dissoc xs := rfl
+
+/-- `(assoc m k₁ v₁ … kₙ vₙ)`, n ≥ 1: the entries written in order -/
+theorem assoc_map (m kvs) (hne : kvs ≠ []) (hl : 2 * kvs.length < 1000) :
+    callOk "assoc" (.map m :: flatKV kvs) (.map (insertAll m kvs)) := by
+  have hlen := flatKV_length kvs
+  have hpos : 0 < kvs.length := List.length_pos_iff.2 hne
+  rw [callOk, call_var rfl _ (by simp [hlen]; omega)]
+  rw [body_assoc]
+  have a : ¬ ((Val.map m :: flatKV kvs).length < 3) := by simp [hlen] <;> omega
+  have b : ¬ ((Val.map m :: flatKV kvs).length % 2 ≠ 1) := by simp [hlen] <;> omega
+  simp only [Core.assoc, a, b, if_false, assocMap_flat]
+
+theorem hash_map_spec (kvs) (hl : 2 * kvs.length ≤ 1000) :
+    callOk "hash-map" (flatKV kvs) (.map (insertAll [] kvs)) := by
+  have hlen := flatKV_length kvs
+  rw [callOk, call_var rfl _ (by omega)]
+  cases kvs with
+  | nil => rfl
+  | cons kv r =>
+    have e : flatKV (kv :: r) = .str kv.1 :: kv.2 :: flatKV r := by simp [flatKV]
+    have : Core.body "hash-map" (flatKV (kv :: r)) = newHashMap (flatKV (kv :: r)) := by rw [e]; rfl
+    rw [this, newHashMap]
+    have : ¬ ((flatKV (kv :: r)).length % 2 = 1) := by omega
+    rw [if_neg this, newHashMapLoop_flat]
+
+theorem dissoc_map1 (m : List (String × Val)) (k : String) :
+    callOk "dissoc" [.map m, .str k] (.map (aerase k m)) := by
+  rw [callOk, call_var rfl _ (by simp), body_dissoc]
+  simp [Core.dissoc, isStr]
+
+theorem get_dissoc_same (m : List (String × Val)) (k : String) (h : (akeys m).Nodup) :
+    callOk "get" [.map (aerase k m), .str k] .nil := by
+  rw [callOk, get_map, alookup_aerase_same k h]; rfl
+
+theorem get_dissoc_other (m : List (String × Val)) {k k' : String} (h : k ≠ k') :
+    Core.call "get" [.map (aerase k m), .str k'] = Core.call "get" [.map m, .str k'] := by
+  rw [get_map, get_map, alookup_aerase_other h]
+
+theorem contains_dissoc_same (m : List (String × Val)) (k : String) (h : (akeys m).Nodup) :
+    callOk "contains?" [.map (aerase k m), .str k] (.bool false) := by
+  rw [callOk, contains_map, alookup_aerase_same k h]; rfl
+
+/-- `contains?` is membership in `keys` -/
+theorem contains_iff_keys (m : List (String × Val)) (k : String) :
+    callOk "contains?" [.map m, .str k] (.bool true) ↔ (Val.str k) ∈ m.map (fun kv => Val.str kv.1) := by
+  rw [callOk, contains_map]
+  have := alookup_isSome_iff k m
+  simp only [akeys] at this
+  constructor
+  · intro h
+    have h' : (alookup k m).isSome = true := by simpa using h
+    obtain ⟨kv, hkv, e⟩ := List.mem_map.1 (this.1 h')
+    exact List.mem_map.2 ⟨kv, hkv, by rw [e]⟩
+  · intro h
+    obtain ⟨kv, hkv, e⟩ := List.mem_map.1 h
+    have : (alookup k m).isSome = true := this.2 (List.mem_map.2 ⟨kv, hkv, by simpa using e⟩)
+    rw [this]
+
+/-- absent key: `get` gives nil; present key: `get` gives the entry's value -/
+theorem get_of_contains (m : List (String × Val)) (k : String) :
+    (callOk "contains?" [.map m, .str k] (.bool false) → callOk "get" [.map m, .str k] .nil) ∧
+    (callOk "contains?" [.map m, .str k] (.bool true) → ∃ v, (k, v) ∈ m ∧ callOk "get" [.map m, .str k] v) := by
+  constructor
+  · intro h
+    rw [callOk, contains_map] at h
+    have : alookup k m = none := by
+      cases h' : alookup k m with
+      | none => rfl
+      | some v => rw [h'] at h; simp at h
+    rw [callOk, get_map, this]; rfl
+  · intro h
+    rw [callOk, contains_map] at h
+    cases h' : alookup k m with
+    | none => rw [h'] at h; simp at h
+    | some v =>
+      refine ⟨v, ?_, by rw [callOk, get_map, h']; rfl⟩
+      clear h
+      induction m with
+      | nil => cases h'
+      | cons kv r ih =>
+        obtain ⟨k2, v2⟩ := kv
+        by_cases e : k2 = k
+        · subst e; simp [alookup] at h'; subst h'; simp
+        · simp only [alookup, e, if_false] at h'; exact List.mem_cons_of_mem _ (ih h')
+
+theorem keys_vals_zip (m : List (String × Val)) :
+    ∃ ks vs, callOk "keys" [.map m] (.list ks none) ∧ callOk "vals" [.map m] (.list vs none) ∧
+      ks.length = vs.length ∧ ks.zip vs = m.map (fun kv => (Val.str kv.1, kv.2)) := by
+  refine ⟨_, _, keys_map m, vals_map m, by simp, ?_⟩
+  induction m with
+  | nil => rfl
+  | cons kv r ih => simp [ih]
+
+theorem count_keys (m : List (String × Val)) :
+    ∃ ks n, callOk "keys" [.map m] ks ∧ callOk "count" [ks] (.int n) ∧ callOk "count" [.map m] (.int n) := by
+  refine ⟨_, _, keys_map m, ?_, count_map m⟩
+  have := count_list (m.map (fun kv => Val.str kv.1)) none
+  simpa using this
+
+theorem merge_maps (m1 m2 : List (String × Val)) :
+    callOk "merge" [.map m1, .map m2] (.map (insertAll m1 m2)) := rfl
+theorem merge_nil_nil : callOk "merge" [.nil, .nil] .nil := rfl
+theorem merge_nil_left (m : List (String × Val)) : callOk "merge" [.nil, .map m] (.map (insertAll [] m)) := rfl
+theorem merge_nil_right (m : List (String × Val)) : callOk "merge" [.map m, .nil] (.map (insertAll [] m)) := rfl
+
+theorem insertAll_nil_of_nodup {m : List (String × Val)} (h : (akeys m).Nodup) : insertAll [] m = m := by
+  have := insertAll_fresh (m := []) (kvs := m) (by simpa [akeys] using h)
+  simpa using this
+
+/-- the right map wins on common keys, the left one supplies the others -/
+theorem merge_right_biased (m1 m2 : List (String × Val)) (h2 : (akeys m2).Nodup) (k : String) :
+    ∃ r, callOk "merge" [.map m1, .map m2] r ∧
+      (callOk "contains?" [.map m2, .str k] (.bool true) →
+        Core.call "get" [r, .str k] = Core.call "get" [.map m2, .str k]) ∧
+      (callOk "contains?" [.map m2, .str k] (.bool false) →
+        Core.call "get" [r, .str k] = Core.call "get" [.map m1, .str k]) := by
+  refine ⟨_, merge_maps m1 m2, ?_, ?_⟩ <;> intro h <;> rw [callOk, contains_map] at h <;>
+    rw [get_map, get_map, alookup_insertAll h2]
+  · cases h' : alookup k m2 with
+    | none => rw [h'] at h; simp at h
+    | some v => rfl
+  · cases h' : alookup k m2 with
+    | none => rfl
+    | some v => rw [h'] at h; simp at h
+
+theorem merge_non_map_error (x : Val) (i : Int) : callErr "merge" [x, .int i] := by
+  cases x <;> exact callErr_of rfl rfl
+
+theorem hash_map_odd_error (xs : List Val) (h : xs.length % 2 = 1) : callErr "hash-map" xs := by
+  by_cases hl : xs.length ≤ 1000
+  · refine callErr_of (call_var rfl xs hl) ?_
+    match xs, h with
+    | [_], _ => rfl
+    | a :: b :: r, h =>
+      have : Core.body "hash-map" (a :: b :: r) = newHashMap (a :: b :: r) := rfl
+      rw [this, newHashMap, if_pos h]; rfl
+  · exact callErr_of (variadic_arity_error_1000 (name := "hash-map") rfl xs (by omega)) rfl
+
+theorem newHashMapLoop_bad_key (pre : List (String × Val)) (k v : Val) (post : List Val) (m)
+    (hk : ∀ s, k ≠ .str s) : isErr (newHashMapLoop (flatKV pre ++ k :: v :: post) m) = true := by
+  induction pre generalizing m with
+  | nil =>
+    simp only [flatKV, List.flatMap_nil, List.nil_append]
+    cases k <;> first | rfl | exact absurd rfl (hk _)
+  | cons kv r ih =>
+    have : flatKV (kv :: r) ++ k :: v :: post = .str kv.1 :: kv.2 :: (flatKV r ++ k :: v :: post) := by
+      simp [flatKV]
+    rw [this, newHashMapLoop]; exact ih _
+
+/-- a key that is not a string/keyword (after any number of good pairs) makes `hash-map` an error -/
+theorem hash_map_non_string_key_error (pre : List (String × Val)) (k v : Val) (post : List Val)
+    (hk : ∀ s, k ≠ .str s) : callErr "hash-map" (flatKV pre ++ k :: v :: post) := by
+  by_cases hl : (flatKV pre ++ k :: v :: post).length ≤ 1000
+  · refine callErr_of (call_var rfl _ hl) ?_
+    have e : ∃ a b r, flatKV pre ++ k :: v :: post = a :: b :: r := by
+      cases pre with
+      | nil => exact ⟨k, v, post, rfl⟩
+      | cons kv r => exact ⟨.str kv.1, kv.2, flatKV r ++ k :: v :: post, by simp [flatKV]⟩
+    obtain ⟨a, b, r, e⟩ := e
+    have : Core.body "hash-map" (flatKV pre ++ k :: v :: post) = newHashMap (flatKV pre ++ k :: v :: post) := by
+      rw [e]; rfl
+    rw [this, newHashMap]
+    split
+    · rfl
+    · exact newHashMapLoop_bad_key pre k v post [] hk
+  · exact callErr_of (variadic_arity_error_1000 (name := "hash-map") rfl _ (by omega)) rfl
+
+/-- a value returned by `call` is a value returned by the body -/
+theorem body_of_callOk {name args r} (h : callOk name args r) : Core.body name args = .ok r := by
+  unfold callOk Core.call at h
+  split at h
+  · cases h
+  · split at h
+    · split at h <;> cases h
+    · exact Option.some.inj h
+
+theorem assocMap_nodup (rest : List Val) (m : List (String × Val)) (h : (akeys m).Nodup) {v}
+    (e : assocMap rest m = .ok v) : ∃ m', v = .map m' ∧ (akeys m').Nodup := by
+  induction rest, m using assocMap.induct with
+  | case1 m => simp only [assocMap] at e; cases e; exact ⟨m, rfl, h⟩
+  | case2 k v' r m ih => simp only [assocMap] at e; exact ih (ainsert_nodup _ _ h) e
+  | case3 => simp [assocMap] at e
+  | case4 => simp [assocMap] at e
+
+theorem conjMap_nodup (rest : List Val) (m : List (String × Val)) (h : (akeys m).Nodup) {v}
+    (e : conjMap rest m = .ok v) : ∃ m', v = .map m' ∧ (akeys m').Nodup := by
+  induction rest, m using conjMap.induct with
+  | case1 m => simp only [conjMap] at e; cases e; exact ⟨m, rfl, h⟩
+  | case2 k v' r m ih => simp only [conjMap] at e; exact ih (ainsert_nodup _ _ h) e
+  | case3 => simp [conjMap] at e
+  | case4 => simp [conjMap] at e
+
+theorem newHashMapLoop_nodup (rest : List Val) (m : List (String × Val)) (h : (akeys m).Nodup) {v}
+    (e : newHashMapLoop rest m = .ok v) : ∃ m', v = .map m' ∧ (akeys m').Nodup := by
+  induction rest, m using newHashMapLoop.induct with
+  | case1 m => simp only [newHashMapLoop] at e; cases e; exact ⟨m, rfl, h⟩
+  | case2 k v' r m ih => simp only [newHashMapLoop] at e; exact ih (ainsert_nodup _ _ h) e
+  | case3 => simp [newHashMapLoop] at e
+  | case4 => simp [newHashMapLoop] at e
+
+/-- `assoc` never creates a duplicate key -/
+theorem assoc_overwrites (m : List (String × Val)) (rest : List Val) (h : (akeys m).Nodup) {r}
+    (e : callOk "assoc" (.map m :: rest) r) : ∃ m', r = .map m' ∧ (akeys m').Nodup := by
+  have e' := body_of_callOk e
+  rw [body_assoc] at e'
+  simp only [Core.assoc] at e'
+  split at e'
+  · cases e'
+  · split at e'
+    · cases e'
+    · exact assocMap_nodup _ _ h e'
+
+theorem hash_map_nodup (xs : List Val) {r} (e : callOk "hash-map" xs r) :
+    ∃ m', r = .map m' ∧ (akeys m').Nodup := by
+  have e' := body_of_callOk e
+  match xs, e' with
+  | [], e' => cases e'; exact ⟨[], rfl, List.nodup_nil⟩
+  | [_], e' => cases e'
+  | a :: b :: r, e' =>
+    have : Core.body "hash-map" (a :: b :: r) = newHashMap (a :: b :: r) := rfl
+    rw [this, newHashMap] at e'
+    split at e'
+    · cases e'
+    · exact newHashMapLoop_nodup _ [] List.nodup_nil e'
+
+theorem merge_nodup (m1 m2 : List (String × Val)) (h : (akeys m1).Nodup) :
+    ∃ m', callOk "merge" [.map m1, .map m2] (.map m') ∧ (akeys m').Nodup :=
+  ⟨_, merge_maps m1 m2, insertAll_nodup m2 h⟩
+
+theorem dissoc_nodup (m : List (String × Val)) (k : String) (h : (akeys m).Nodup) :
+    ∃ m', callOk "dissoc" [.map m, .str k] (.map m') ∧ (akeys m').Nodup :=
+  ⟨_, dissoc_map1 m k, aerase_nodup k h⟩
+
+/-! ### get-in / assoc-in -/
+
+/-- iterated `get` along a path (stops at the first error) -/
+def iterGet : Val → List Val → BRes
+  | v, [] => .ok v
+  | v, i :: r => match Core.get v i with
+    | .ok b => iterGet b r
+    | e => e
+
+/-- every value traversed while at least two keys remain is a map or nil -/
+def MapPath : Val → List String → Prop
+  | _, [] => True
+  | _, [_] => True
+  | .map m, k :: r => MapPath ((alookup k m).getD .nil) r
+  | .nil, _ => True
+  | _, _ => False
+
+theorem get_nil_key (i : Val) : Core.get .nil i = .ok .nil := rfl
+
+theorem getIn_nil (path : List Val) : getIn .nil path = .ok .nil := by
+  induction path with
+  | nil => rfl
+  | cons i r ih =>
+    cases r with
+    | nil => rfl
+    | cons j r => cases i <;> simpa [getIn] using ih
+
+theorem iterGet_nil (path : List Val) : iterGet .nil path = .ok .nil := by
+  induction path with
+  | nil => rfl
+  | cons i r ih => simp [iterGet, get_nil_key, ih]
+
+theorem getIn_empty_map (k : String) (ks : List String) :
+    getIn (.map []) ((k :: ks).map .str) = .ok .nil := by
+  induction ks generalizing k with
+  | nil => rfl
+  | cons k2 r ih => simpa [getIn, alookup] using ih k2
+
+theorem get_in_eq (v : Val) (path p) : Core.call "get-in" [v, .vec path p] = some (getIn v path) := by
+  cases v <;> first | rfl | exact congrArg some (getIn_nil path).symm
+
+theorem iterGet_one (v i : Val) : iterGet v [i] = Core.get v i := by
+  simp only [iterGet]
+  cases Core.get v i <;> rfl
+
+theorem getIn_fold (v : Val) (ks : List String) (h : MapPath v ks) :
+    getIn v (ks.map .str) = iterGet v (ks.map .str) := by
+  induction ks generalizing v with
+  | nil => rfl
+  | cons k r ih =>
+    cases r with
+    | nil => exact (iterGet_one v (.str k)).symm
+    | cons k2 r =>
+      cases v with
+      | nil => rw [getIn_nil, iterGet_nil]
+      | map m =>
+        have hm : MapPath ((alookup k m).getD .nil) (k2 :: r) := h
+        have e1 : iterGet (.map m) ((k :: k2 :: r).map .str) =
+            iterGet ((alookup k m).getD .nil) ((k2 :: r).map .str) := rfl
+        have e2 : getIn (.map m) ((k :: k2 :: r).map .str) =
+            getIn (match (alookup k m).getD .nil with | .nil => .map [] | b => b) ((k2 :: r).map .str) := rfl
+        rw [e1, e2]
+        cases hb : (alookup k m).getD .nil with
+        | nil => rw [getIn_empty_map, iterGet_nil]
+        | _ => rw [hb] at hm; exact ih _ hm
+      | _ => exact absurd h (by simp [MapPath])
+
+/-- `(get-in v [k₁ … kₙ])` is the iterated `get`, as long as the values traversed are maps (or nil) -/
+theorem get_in_fold (v : Val) (ks : List String) (p) (h : MapPath v ks) :
+    Core.call "get-in" [v, .vec (ks.map .str) p] = some (iterGet v (ks.map .str)) := by
+  rw [get_in_eq, getIn_fold v ks h]
+
+/-- deviation: through a non-map in the middle of a longer path `get-in` yields nil, iterated `get` an error -/
+theorem get_in_through_scalar :
+    callOk "get-in" [.map [("a", .int 5)], .vec [.str "a", .str "b", .str "c"] none] .nil ∧
+    isErr (iterGet (.map [("a", .int 5)]) [.str "a", .str "b", .str "c"]) = true := by
+  constructor
+  · rw [callOk, get_in_eq]; simp [getIn, alookup, get_nil_key]
+  · simp [iterGet, Core.get, alookup, isErr]
+
+/-- along the path, every entry met before the last key is a map, nil or missing -/
+def NestedMaps : List (String × Val) → List String → Prop
+  | _, [] => True
+  | _, [_] => True
+  | m, k :: k2 :: r =>
+    match (alookup k m).getD .nil with
+    | .nil => True
+    | .map m' => NestedMaps m' (k2 :: r)
+    | _ => False
+
+theorem assoc_in_eq (v : Val) (path p) (nv : Val) :
+    Core.call "assoc-in" [v, .vec path p, nv] = some (assocIn v path nv) := rfl
+
+theorem assoc3_map (m : List (String × Val)) (k : String) (v : Val) :
+    Core.assoc [.map m, .str k, v] = .ok (.map (ainsert k v m)) := by
+  simp [Core.assoc, assocMap]
+
+theorem NestedMaps_nil (ks : List String) : NestedMaps [] ks := by
+  match ks with
+  | [] => trivial
+  | [_] => trivial
+  | k :: k2 :: r => simp [NestedMaps, alookup]
+
+theorem assocIn_getIn (m : List (String × Val)) (k : String) (ks : List String) (nv : Val)
+    (h : NestedMaps m (k :: ks)) :
+    ∃ m', assocIn (.map m) ((k :: ks).map .str) nv = .ok (.map m') ∧
+      getIn (.map m') ((k :: ks).map .str) = .ok nv := by
+  induction ks generalizing m k with
+  | nil =>
+    refine ⟨ainsert k nv m, assoc3_map m k nv, ?_⟩
+    show Core.get _ _ = _
+    simp [Core.get, alookup_ainsert_same]
+  | cons k2 r ih =>
+    have key : ∃ mb, (match (alookup k m).getD .nil with | .nil => Val.map [] | b => b) = .map mb ∧
+        NestedMaps mb (k2 :: r) := by
+      simp only [NestedMaps] at h
+      cases hb : (alookup k m).getD .nil with
+      | nil => exact ⟨[], rfl, NestedMaps_nil _⟩
+      | map m' => rw [hb] at h; exact ⟨m', rfl, h⟩
+      | _ => rw [hb] at h; exact absurd h (by simp)
+    obtain ⟨mb, eb, hmb⟩ := key
+    obtain ⟨mi, e1, e2⟩ := ih mb k2 hmb
+    refine ⟨ainsert k (.map mi) m, ?_, ?_⟩
+    · have : assocIn (.map m) ((k :: k2 :: r).map .str) nv =
+          (match assocIn (match (alookup k m).getD .nil with | .nil => Val.map [] | b => b) ((k2 :: r).map .str) nv with
+           | .ok inner => Core.assoc [.map m, .str k, inner]
+           | r => r) := rfl
+      rw [this, eb, e1]; exact assoc3_map m k _
+    · have : getIn (.map (ainsert k (.map mi) m)) ((k :: k2 :: r).map .str) =
+          getIn (match (alookup k (ainsert k (.map mi) m)).getD .nil with | .nil => Val.map [] | b => b)
+            ((k2 :: r).map .str) := rfl
+      rw [this, alookup_ainsert_same]; exact e2
+
+/-- on nested maps, `get-in` after `assoc-in` with the same (non-empty, string) path gives the value -/
+theorem assoc_in_get_in (m : List (String × Val)) (k : String) (ks : List String) (p q) (nv : Val)
+    (h : NestedMaps m (k :: ks)) :
+    ∃ r, callOk "assoc-in" [.map m, .vec ((k :: ks).map .str) p, nv] r ∧
+      callOk "get-in" [r, .vec ((k :: ks).map .str) q] nv := by
+  obtain ⟨m', e1, e2⟩ := assocIn_getIn m k ks nv h
+  exact ⟨.map m', by rw [callOk, assoc_in_eq, e1], by rw [callOk, get_in_eq, e2]⟩
+
+theorem assoc_in_nil_error (k : String) (p) (nv : Val) : callErr "assoc-in" [.nil, .vec [.str k] p, nv] :=
+  callErr_of rfl rfl
+theorem assoc_in_path_not_vector_error (v nv : Val) (xs p) : callErr "assoc-in" [v, .list xs p, nv] :=
+  callErr_of rfl rfl
+
+/-! ### rename-keys -/
+
+/-- the new name of key `k` under the renaming `alt` -/
+def ren (alt : List (String × Val)) (k : String) : String :=
+  match alookup k alt with
+  | some (.str nk) => nk
+  | _ => k
+
+def rkStep (alt : List (String × Val)) (acc : Option (List (String × Val))) (kv : String × Val) :
+    Option (List (String × Val)) :=
+  acc.bind fun out =>
+    match alookup kv.1 alt with
+    | some (.str nk) => some (ainsert nk kv.2 out)
+    | some _ => none
+    | none => some (ainsert kv.1 kv.2 out)
+
+theorem renameKeys_eq (data alt) : renameKeys data alt =
+    (match data.foldl (rkStep alt) (some []) with
+     | some out => .ok (.map out)
+     | none => .goerr "interface conversion") := rfl
+
+theorem rename_keys_eq (d alt) : Core.call "rename-keys" [.map d, .map alt] = some (renameKeys d alt) := rfl
+
+/-- every renaming that applies to a key of `data` gives a string (or keyword) -/
+def RenStr (data alt : List (String × Val)) : Prop :=
+  ∀ kv ∈ data, ∀ w, alookup kv.1 alt = some w → ∃ s, w = .str s
+
+theorem rkStep_some (alt acc) (kv : String × Val) (h : ∀ w, alookup kv.1 alt = some w → ∃ s, w = .str s) :
+    rkStep alt (some acc) kv = some (ainsert (ren alt kv.1) kv.2 acc) := by
+  simp only [rkStep, ren, Option.bind_some]
+  cases hl : alookup kv.1 alt with
+  | none => rfl
+  | some w => obtain ⟨s, rfl⟩ := h w hl; rfl
+
+theorem foldl_rkStep (alt data acc) (h : RenStr data alt) :
+    data.foldl (rkStep alt) (some acc) = some (insertAll acc (data.map (fun kv => (ren alt kv.1, kv.2)))) := by
+  induction data generalizing acc with
+  | nil => rfl
+  | cons kv r ih =>
+    rw [List.foldl_cons, rkStep_some alt acc kv (h kv (by simp)), ih _ (fun kv' hm => h kv' (by simp [hm]))]
+    rfl
+
+/-- for a renaming that gives strings and does not make two keys collide, `rename-keys` renames
+    each key and keeps values and order -/
+theorem rename_keys_spec (data alt : List (String × Val)) (h : RenStr data alt)
+    (hn : (data.map (fun kv => ren alt kv.1)).Nodup) :
+    callOk "rename-keys" [.map data, .map alt] (.map (data.map (fun kv => (ren alt kv.1, kv.2)))) := by
+  rw [callOk, rename_keys_eq, renameKeys_eq, foldl_rkStep alt data [] h]
+  have : (akeys ([] : List (String × Val)) ++ akeys (data.map (fun kv => (ren alt kv.1, kv.2)))).Nodup := by
+    simpa [akeys, List.map_map, Function.comp_def] using hn
+  rw [insertAll_fresh this]; rfl
+
+theorem foldl_rkStep_none (alt) (data : List (String × Val)) : data.foldl (rkStep alt) none = none := by
+  induction data with
+  | nil => rfl
+  | cons kv r ih => rw [List.foldl_cons]; exact ih
+
+/-- a renaming to something that is not a string is an error -/
+theorem rename_keys_non_string_error (data alt : List (String × Val)) (k : String) (w : Val)
+    (hk : k ∈ akeys data) (hw : alookup k alt = some w) (hs : ∀ s, w ≠ .str s) :
+    callErr "rename-keys" [.map data, .map alt] := by
+  refine callErr_of (rename_keys_eq data alt) ?_
+  rw [renameKeys_eq]
+  have : ∀ acc, data.foldl (rkStep alt) acc = none := by
+    induction data with
+    | nil => simp [akeys] at hk
+    | cons kv r ih =>
+      intro acc
+      rw [List.foldl_cons]
+      by_cases e : kv.1 = k
+      · have : rkStep alt acc kv = none := by
+          cases acc with
+          | none => rfl
+          | some out =>
+            simp only [rkStep, Option.bind_some, e, hw]
+        rw [this, foldl_rkStep_none]
+      · have hk' : k ∈ akeys r := by
+          simp only [akeys, List.map_cons, List.mem_cons] at hk
+          rcases hk with hk | hk
+          · exact absurd hk.symm e
+          · exact hk
+        exact ih hk' _
+  rw [this]; rfl
+
+/-! ### sets, second batch -/
+
+/-- the keys `ks` added one after the other to the set `s` -/
+def insertKeys (s ks : List String) : List String := ks.foldl (fun acc k => sinsert k acc) s
+
+theorem insertKeys_nodup {s} (ks) (h : s.Nodup) : (insertKeys s ks).Nodup := by
+  induction ks generalizing s with
+  | nil => exact h
+  | cons k r ih => exact ih (sinsert_nodup h)
+
+theorem mem_insertKeys {s ks : List String} {k : String} : k ∈ insertKeys s ks ↔ k ∈ s ∨ k ∈ ks := by
+  induction ks generalizing s with
+  | nil => simp [insertKeys]
+  | cons k' r ih =>
+    have e : insertKeys s (k' :: r) = insertKeys (sinsert k' s) r := rfl
+    rw [e, ih, mem_sinsert]; simp only [List.mem_cons]
+    constructor
+    · rintro ((h | h) | h)
+      · exact .inr (.inl h)
+      · exact .inl h
+      · exact .inr (.inr h)
+    · rintro (h | h | h)
+      · exact .inl (.inr h)
+      · exact .inl (.inl h)
+      · exact .inr h
+
+theorem insertKeys_fresh {s ks : List String} (h : (s ++ ks).Nodup) : insertKeys s ks = s ++ ks := by
+  induction ks generalizing s with
+  | nil => simp [insertKeys]
+  | cons k r ih =>
+    have hk : k ∉ s := fun hm => (List.nodup_append.1 h).2.2 _ hm k (by simp) rfl
+    have e : insertKeys s (k :: r) = insertKeys (sinsert k s) r := rfl
+    rw [e, sinsert_eq, if_neg hk, ih]
+    · simp
+    · simpa [List.append_assoc] using h
+
+theorem newSet_strs (ks s) : newSet (ks.map .str) s = .ok (.set (insertKeys s ks)) := by
+  induction ks generalizing s with
+  | nil => rfl
+  | cons k r ih => simp only [List.map_cons, newSet, ih]; rfl
+
+theorem addKeys_strs (what ks s) : addKeys what (ks.map .str) s = .ok (.set (insertKeys s ks)) := by
+  induction ks generalizing s with
+  | nil => rfl
+  | cons k r ih => simp only [List.map_cons, addKeys, ih]; rfl
+
+theorem newSet_nodup (xs : List Val) (s : List String) (h : s.Nodup) {v} (e : newSet xs s = .ok v) :
+    ∃ s', v = .set s' ∧ s'.Nodup := by
+  induction xs, s using newSet.induct with
+  | case1 s => simp only [newSet] at e; cases e; exact ⟨s, rfl, h⟩
+  | case2 k r s ih => simp only [newSet] at e; exact ih (sinsert_nodup h) e
+  | case3 => simp [newSet] at e
+
+theorem addKeys_nodup (what) (xs : List Val) (s : List String) (h : s.Nodup) {v} (e : addKeys what xs s = .ok v) :
+    ∃ s', v = .set s' ∧ s'.Nodup := by
+  induction xs, s using addKeys.induct with
+  | case1 s => simp only [addKeys] at e; cases e; exact ⟨s, rfl, h⟩
+  | case2 k r s ih => simp only [addKeys] at e; exact ih (sinsert_nodup h) e
+  | case3 => simp [addKeys] at e
+
+theorem hash_set_spec (ks : List String) (hl : ks.length ≤ 1000) :
+    callOk "hash-set" (ks.map .str) (.set (insertKeys [] ks)) := by
+  rw [callOk, call_var rfl _ (by simpa using hl)]
+  exact congrArg some (newSet_strs ks [])
+
+/-- `hash-set` never creates a duplicate member -/
+theorem hash_set_nodup (xs : List Val) {r} (e : callOk "hash-set" xs r) : ∃ s, r = .set s ∧ s.Nodup :=
+  newSet_nodup xs [] List.nodup_nil (body_of_callOk e)
+
+theorem set_of_seq {v} (ks : List String) (h : Seq v (ks.map .str)) :
+    callOk "set" [v] (.set (insertKeys [] ks)) := by
+  rcases Seq_cases h with ⟨p, rfl⟩ | ⟨p, rfl⟩ <;> exact congrArg some (newSet_strs ks [])
+theorem set_nil : callOk "set" [.nil] (.set []) := rfl
+
+theorem set_nodup (v : Val) {r} (e : callOk "set" [v] r) : ∃ s, r = .set s ∧ s.Nodup := by
+  have e' := body_of_callOk e
+  cases v with
+  | nil => cases e'; exact ⟨[], rfl, List.nodup_nil⟩
+  | list xs p => exact newSet_nodup xs [] List.nodup_nil e'
+  | vec xs p => exact newSet_nodup xs [] List.nodup_nil e'
+  | _ => cases e'
+
+theorem conj_set (s ks : List String) (hne : ks ≠ []) (hl : ks.length < 1000) :
+    callOk "conj" (.set s :: ks.map .str) (.set (insertKeys s ks)) := by
+  rw [callOk, call_conj _ _ (by simpa using hne) (by simpa using hl)]
+  exact congrArg some (addKeys_strs "conj" ks s)
+
+theorem conj_set_nodup (s : List String) (xs : List Val) (h : s.Nodup) {r}
+    (e : callOk "conj" (.set s :: xs) r) : ∃ s', r = .set s' ∧ s'.Nodup :=
+  addKeys_nodup "conj" xs s h (body_of_callOk e)
+
+theorem contains_conj_same (s : List String) (k : String) :
+    callOk "contains?" [.set (sinsert k s), .str k] (.bool true) := by
+  have : (sinsert k s).contains k = true := List.contains_iff_mem.2 (mem_sinsert.2 (.inl rfl))
+  rw [callOk, contains_set, this]
+
+theorem contains_conj_other (s : List String) {k k' : String} (h : k ≠ k') :
+    Core.call "contains?" [.set (sinsert k s), .str k'] = Core.call "contains?" [.set s, .str k'] := by
+  rw [contains_set, contains_set]
+  have : (sinsert k s).contains k' = s.contains k' := by
+    rw [Bool.eq_iff_iff, List.contains_iff_mem, List.contains_iff_mem, mem_sinsert]
+    constructor
+    · rintro (e | e)
+      · exact absurd e.symm h
+      · exact e
+    · exact .inr
+  rw [this]
+
+theorem count_conj_set (s : List String) (k : String) :
+    callOk "count" [.set (sinsert k s)] (.int (s.length + (if k ∈ s then 0 else 1 : Nat))) := by
+  rw [callOk, count_set, sinsert_eq]
+  split <;> simp
+
+theorem dissoc_set1 (s : List String) (k : String) :
+    callOk "dissoc" [.set s, .str k] (.set (s.erase k)) := by
+  rw [callOk, call_var rfl _ (by simp), body_dissoc]
+  simp [Core.dissoc, isStr]
+
+theorem contains_dissoc_set_same (s : List String) (k : String) (h : s.Nodup) :
+    callOk "contains?" [.set (s.erase k), .str k] (.bool false) := by
+  have : (s.erase k).contains k = false := by
+    rw [Bool.eq_false_iff]; intro hc
+    exact (List.Nodup.mem_erase_iff h).1 (List.contains_iff_mem.1 hc) |>.1 rfl
+  rw [callOk, contains_set, this]
+
+theorem contains_dissoc_set_other (s : List String) {k k' : String} (h : k ≠ k') :
+    Core.call "contains?" [.set (s.erase k), .str k'] = Core.call "contains?" [.set s, .str k'] := by
+  rw [contains_set, contains_set]
+  have : (s.erase k).contains k' = s.contains k' := by
+    rw [Bool.eq_iff_iff, List.contains_iff_mem, List.contains_iff_mem]
+    exact List.mem_erase_of_ne (fun e => h e.symm)
+  rw [this]
+
+theorem dissoc_set_nodup (s : List String) (k : String) (h : s.Nodup) : (s.erase k).Nodup :=
+  List.Sublist.nodup List.erase_sublist h
+
+theorem count_dissoc_set (s : List String) (k : String) :
+    callOk "count" [.set (s.erase k)] (.int (s.length - (if k ∈ s then 1 else 0 : Nat) : Nat)) := by
+  rw [callOk, count_set, List.length_erase]
+  split <;> simp
+
+theorem hash_set_non_string_error (pre : List String) (x : Val) (post : List Val) (hx : ∀ s, x ≠ .str s) :
+    callErr "hash-set" (pre.map .str ++ x :: post) := by
+  by_cases hl : (pre.map Val.str ++ x :: post).length ≤ 1000
+  · refine callErr_of (call_var rfl _ hl) ?_
+    show isErr (newSet _ []) = true
+    generalize ([] : List String) = acc; clear hl
+    induction pre generalizing acc with
+    | nil => cases x <;> first | rfl | exact absurd rfl (hx _)
+    | cons k r ih => simp only [List.map_cons, List.cons_append, newSet]; exact ih _
+  · exact callErr_of (variadic_arity_error_1000 (name := "hash-set") rfl _ (by omega)) rfl
+
+/-! ### errors, second batch: outside the domain -/
+
+/-- list, vector, map, set or nil -/
+def isColl : Val → Bool
+  | .list _ _ | .vec _ _ | .map _ | .set _ | .nil => true
+  | _ => false
+
+theorem count_wrong_kind (v : Val) (h : isColl v = false) : callErr "count" [v] := by
+  cases v <;> first | exact callErr_of rfl rfl | cases h
+theorem empty?_wrong_kind (v : Val) (h : isColl v = false) : callErr "empty?" [v] := by
+  cases v <;> first | exact callErr_of rfl rfl | cases h
+theorem first_wrong_kind (v : Val) (h : seqOf? v = none) (hn : v ≠ .nil) : callErr "first" [v] := by
+  cases v <;> first | exact callErr_of rfl rfl | exact absurd rfl hn | cases h
+theorem rest_wrong_kind (v : Val) (h : seqOf? v = none) (hn : v ≠ .nil) : callErr "rest" [v] := by
+  cases v <;> first | exact callErr_of rfl rfl | exact absurd rfl hn | cases h
+theorem cons_wrong_kind (x v : Val) (h : seqOf? v = none) : callErr "cons" [x, v] := by
+  cases v <;> first | exact callErr_of rfl rfl | cases h
+theorem nth_wrong_kind (v : Val) (i : Int) (h : seqOf? v = none) : callErr "nth" [v, .int i] := by
+  cases v <;> first | exact callErr_of rfl rfl | cases h
+theorem nth_index_not_int (v k : Val) (h : ∀ i, k ≠ .int i) : callErr "nth" [v, k] := by
+  cases k <;> first | exact callErr_of rfl rfl | exact absurd rfl (h _)
+theorem take_wrong_kind (v : Val) (n : Int) (h : seqOf? v = none) (hn : v ≠ .nil) :
+    callErr "take" [.int n, v] ∧ callErr "drop" [.int n, v] ∧
+    callErr "take-last" [.int n, v] ∧ callErr "drop-last" [.int n, v] := by
+  cases v <;> first | exact absurd rfl hn |
+    exact ⟨callErr_of rfl rfl, callErr_of rfl rfl, callErr_of rfl rfl, callErr_of rfl rfl⟩ | cases h
+theorem take_count_not_int (n v : Val) (h : ∀ i, n ≠ .int i) :
+    callErr "take" [n, v] ∧ callErr "drop" [n, v] ∧ callErr "take-last" [n, v] ∧ callErr "drop-last" [n, v] := by
+  cases n <;> first | exact absurd rfl (h _) |
+    exact ⟨callErr_of rfl rfl, callErr_of rfl rfl, callErr_of rfl rfl, callErr_of rfl rfl⟩
+theorem conj_wrong_kind (v x : Val) (h : isColl v = false ∨ v = .nil) : callErr "conj" [v, x] := by
+  cases v <;> first | exact callErr_of rfl rfl | (rcases h with h | h <;> cases h)
+theorem keys_wrong_kind (v : Val) (h : ∀ m, v ≠ .map m) : callErr "keys" [v] ∧ callErr "vals" [v] := by
+  cases v <;> first | exact ⟨callErr_of rfl rfl, callErr_of rfl rfl⟩ | exact absurd rfl (h _)
+theorem seq_wrong_kind (v : Val) (h : isColl v = false ∨ (∃ m, v = .map m)) (hs : ∀ s, v ≠ .str s) :
+    callErr "seq" [v] := by
+  cases v <;> first | exact callErr_of rfl rfl | exact absurd rfl (hs _) |
+    (rcases h with h | ⟨_, h⟩ <;> cases h)
+theorem vec_wrong_kind (v : Val) (h : seqOf? v = none) (hs : ∀ s, v ≠ .set s) : callErr "vec" [v] := by
+  cases v <;> first | exact callErr_of rfl rfl | exact absurd rfl (hs _) | cases h
+theorem range_not_int (a b : Val) (h : (∀ i, a ≠ .int i) ∨ (∀ i, b ≠ .int i)) : callErr "range" [a, b] := by
+  rcases h with h | h
+  · cases a <;> first | exact callErr_of rfl rfl | exact absurd rfl (h _)
+  · cases b <;> first | exact absurd rfl (h _) | (cases a <;> exact callErr_of rfl rfl)
+theorem contains_key_not_string (v k : Val) (h : ∀ s, k ≠ .str s) : callErr "contains?" [v, k] := by
+  cases k <;> first | exact callErr_of rfl rfl | exact absurd rfl (h _)
+theorem contains_wrong_kind (v : Val) (k : String) (h : isColl v = false ∨ seqOf? v ≠ none) :
+    callErr "contains?" [v, .str k] := by
+  cases v <;> first | exact callErr_of rfl rfl | (rcases h with h | h <;> first | cases h | exact absurd rfl h)
+theorem merge_wrong_kind (x y : Val) (h : (x ≠ .nil ∧ ∀ m, x ≠ .map m) ∨ (y ≠ .nil ∧ ∀ m, y ≠ .map m)) :
+    callErr "merge" [x, y] := by
+  rcases h with ⟨h1, h2⟩ | ⟨h1, h2⟩
+  · cases x <;> first | exact absurd rfl h1 | exact absurd rfl (h2 _) | (cases y <;> exact callErr_of rfl rfl)
+  · cases y <;> first | exact absurd rfl h1 | exact absurd rfl (h2 _) | (cases x <;> exact callErr_of rfl rfl)
+
+theorem get_eq (h k : Val) : Core.call "get" [h, k] = some (Core.get h k) := rfl
+
+theorem get_seq_index {s xs} (h : Seq s xs) (n : Nat) (hn : n < xs.length) :
+    callOk "get" [s, .int n] xs[n] := by
+  have c : (0 : Int) ≤ n ∧ (n : Int).toNat < xs.length := ⟨by omega, by simpa using hn⟩
+  rcases Seq_cases h with ⟨p, rfl⟩ | ⟨p, rfl⟩ <;>
+    (rw [callOk, get_eq]; simp only [Core.get, if_pos c]; simp [hn])
+
+/-- `(get [1 2] 5)`: an index outside the sequence is an error, not nil -/
+theorem get_seq_out_of_range {s xs} (h : Seq s xs) (i : Int) (hi : i < 0 ∨ (xs.length : Int) ≤ i) :
+    callErr "get" [s, .int i] := by
+  have c : ¬ ((0 : Int) ≤ i ∧ i.toNat < xs.length) := by omega
+  rcases Seq_cases h with ⟨p, rfl⟩ | ⟨p, rfl⟩ <;>
+    (refine callErr_of (get_eq _ _) ?_; simp only [Core.get, if_neg c]; rfl)
+
+theorem get_seq_string_key {s xs} (h : Seq s xs) (k : String) : callErr "get" [s, .str k] := by
+  rcases Seq_cases h with ⟨p, rfl⟩ | ⟨p, rfl⟩ <;> exact callErr_of rfl rfl
+theorem get_map_int_key (m) (i : Int) : callErr "get" [.map m, .int i] := callErr_of rfl rfl
+theorem get_set_member (s : List String) (k : String) :
+    callOk "get" [.set s, .str k] (if s.contains k then .str k else .nil) := by
+  rw [callOk, get_eq]; simp only [Core.get]; split <;> rfl
+theorem get_bad_key (h k : Val) (hn : h ≠ .nil) (hk : (∀ s, k ≠ .str s) ∧ ∀ i, k ≠ .int i) :
+    callErr "get" [h, k] := by
+  refine callErr_of (get_eq h k) ?_
+  cases h <;> first | exact absurd rfl hn |
+    (cases k <;> first | rfl | exact absurd rfl (hk.1 _) | exact absurd rfl (hk.2 _))
+theorem get_scalar (h k : Val) (hc : isColl h = false) : callErr "get" [h, k] := by
+  refine callErr_of (get_eq h k) ?_
+  cases h <;> first | (cases k <;> rfl) | cases hc
+
+/-- `(assoc v i x)` on a vector replaces position `i` and returns a VECTOR -/
+theorem assoc_vector (xs p) (n : Nat) (x : Val) (hn : n < xs.length) :
+    callOk "assoc" [.vec xs p, .int n, x] (.vec (xs.set n x) none) := by
+  have c : (0 : Int) ≤ n ∧ (n : Int).toNat < xs.length := ⟨by omega, by simpa using hn⟩
+  rw [callOk, call_var rfl _ (by simp), body_assoc]
+  simp [Core.assoc, assocVec, hn]
+theorem assoc_vector_out_of_range (xs p) (i : Int) (x : Val) (hi : i < 0 ∨ (xs.length : Int) ≤ i) :
+    callErr "assoc" [.vec xs p, .int i, x] := by
+  have c : ¬ ((0 : Int) ≤ i ∧ i.toNat < xs.length) := by omega
+  refine callErr_of (call_var rfl _ (by simp)) ?_
+  rw [body_assoc]; simp [Core.assoc, assocVec, c, isErr]
+theorem assoc_wrong_kind (v k x : Val) (h : isColl v = false ∨ v = .nil ∨ ∃ xs p, v = .list xs p) :
+    callErr "assoc" [v, k, x] := by
+  refine callErr_of (call_var rfl _ (by simp)) ?_
+  rw [body_assoc]
+  cases v <;> first | rfl | (rcases h with h | h | ⟨_, _, h⟩ <;> cases h)
+theorem assoc_map_non_string_key (m) (k x : Val) (hk : ∀ s, k ≠ .str s) :
+    callErr "assoc" [.map m, k, x] := by
+  refine callErr_of (call_var rfl _ (by simp)) ?_
+  rw [body_assoc]
+  cases k <;> first | exact absurd rfl (hk _) | simp [Core.assoc, assocMap, isErr]
+theorem assoc_map_missing_value (m) (k : Val) : callErr "assoc" [.map m, k] := by
+  refine callErr_of (call_var rfl _ (by simp)) ?_
+  rw [body_assoc]; simp [Core.assoc, isErr]
+theorem dissoc_wrong_kind (v k : Val) (h : ∀ m, v ≠ .map m) (hs : ∀ s, v ≠ .set s) :
+    callErr "dissoc" [v, k] := by
+  refine callErr_of (call_var rfl _ (by simp)) ?_
+  rw [body_dissoc]
+  cases v <;> first | exact absurd rfl (h _) | exact absurd rfl (hs _) | simp [Core.dissoc, isErr]
+theorem dissoc_non_string_key (m) (k : Val) (hk : ∀ s, k ≠ .str s) : callErr "dissoc" [.map m, k] := by
+  refine callErr_of (call_var rfl _ (by simp)) ?_
+  rw [body_dissoc]
+  cases k <;> first | exact absurd rfl (hk _) | simp [Core.dissoc, isStr, isErr]
+
+/-! ### the collection builtins that call back into the evaluator: map, apply, update, update-in -/
+
+theorem map_eq (fuel : Nat) (st : State) (f s : Val) (d : Nat) :
+    callBuiltin (fuel + 1) st "map" [f, s] d =
+      (match seqOf? s with
+          | none => (.err (.lisp (.goerr "GetSlice called on non-sequence") none), st)
+          | some xs =>
+            match mapLoop fuel st f xs d with
+            | (.ok vs, st) => (.ok (.list vs none), st)
+            | (.err e, st) => (.err e, st)
+            | (.oof, st) => (.oof, st)) := by
+  unfold callBuiltin
+  simp only [String.reduceEq, if_false, if_true]
+  cases seqOf? s with
+  | none => rfl
+  | some xs => simp only []; rcases mapLoop fuel st f xs d with ⟨_ | _ | _, _⟩ <;> rfl
+
+theorem apply_builtin (fuel : Nat) (st : State) (g : String) (args : List Val) (d : Nat) :
+    apply (fuel + 1) st (.builtin g) args d = callBuiltin fuel st g args d := by
+  unfold apply; rfl
+
+/-- names the evaluator's `callBuiltin` handles itself -/
+def evalNames : List String :=
+  ["trace!", "depth!", "eval", "apply", "map", "atom", "deref", "reset!", "swap!", "update", "update-in"]
+
+theorem callBuiltin_pure (fuel : Nat) (st : State) (g : String) (args : List Val) (d : Nat) (v : Val)
+    (hg : g ∉ evalNames) (h : Core.call g args = some (.ok v)) :
+    callBuiltin (fuel + 1) st g args d = (.ok v, st) := by
+  simp only [evalNames, List.mem_cons, List.not_mem_nil, or_false, not_or] at hg
+  unfold callBuiltin
+  simp only [hg, if_false, h]
+
+theorem mapLoop_length (fuel : Nat) (st : State) (f : Val) (xs : List Val) (d : Nat) {vs st'}
+    (h : mapLoop fuel st f xs d = (.ok vs, st')) : vs.length = xs.length := by
+  induction xs generalizing fuel st vs st' with
+  | nil =>
+    cases fuel with
+    | zero => unfold mapLoop at h; cases h
+    | succ n => unfold mapLoop at h; cases h; rfl
+  | cons x xs ih =>
+    cases fuel with
+    | zero => unfold mapLoop at h; cases h
+    | succ n =>
+      unfold mapLoop at h
+      rcases ha : apply n st f [x] d with ⟨_ | _ | _, st1⟩ <;> rw [ha] at h <;> simp only [] at h
+      · rcases hm : mapLoop n st1 f xs d with ⟨_ | _ | _, st2⟩ <;> rw [hm] at h <;> simp only [] at h
+        · cases h; simp [ih _ _ hm]
+        · cases h
+        · cases h
+      · cases h
+      · cases h
+
+/-- `map` returns a LIST with one element per element of its (list or vector) argument -/
+theorem map_kind (fuel : Nat) (st : State) (f s : Val) (d : Nat) {v st'}
+    (h : callBuiltin fuel st "map" [f, s] d = (.ok v, st')) :
+    ∃ xs vs, Seq s xs ∧ v = .list vs none ∧ vs.length = xs.length := by
+  cases fuel with
+  | zero => unfold callBuiltin at h; cases h
+  | succ n =>
+    rw [map_eq] at h
+    cases hs : seqOf? s with
+    | none => rw [hs] at h; cases h
+    | some xs =>
+      rw [hs] at h; simp only [] at h
+      rcases hm : mapLoop n st f xs d with ⟨_ | _ | _, st2⟩ <;> rw [hm] at h <;> simp only [] at h
+      · cases h; exact ⟨xs, _, hs, rfl, mapLoop_length _ _ _ _ _ hm⟩
+      · cases h
+      · cases h
+
+theorem mapLoop_pure (g : String) (φ : Val → Val) (hg : g ∉ evalNames) (st : State) (d : Nat)
+    (xs : List Val) (hx : ∀ x ∈ xs, Core.call g [x] = some (.ok (φ x))) (fuel : Nat)
+    (hf : xs.length + 2 ≤ fuel) : mapLoop fuel st (.builtin g) xs d = (.ok (xs.map φ), st) := by
+  induction xs generalizing fuel with
+  | nil =>
+    obtain ⟨n, rfl⟩ : ∃ n, fuel = n + 1 := ⟨fuel - 1, by simp at hf; omega⟩
+    unfold mapLoop; rfl
+  | cons x xs ih =>
+    obtain ⟨n, rfl⟩ : ∃ n, fuel = n + 3 := ⟨fuel - 3, by simp at hf; omega⟩
+    unfold mapLoop
+    rw [apply_builtin, callBuiltin_pure _ _ _ _ _ _ hg (hx x (by simp))]
+    simp only []
+    rw [ih (fun y hy => hx y (by simp [hy])) (n + 2) (by simp at hf ⊢; omega)]
+    rfl
+
+/-- `(map g s)` for a pure builtin `g`: the LIST of `(g x)` for the elements `x` of `s` in order;
+    the evaluator state is untouched -/
+theorem map_pure_builtin (g : String) (φ : Val → Val) (hg : g ∉ evalNames) (st : State) (d : Nat)
+    {s xs} (hs : Seq s xs) (hx : ∀ x ∈ xs, Core.call g [x] = some (.ok (φ x))) (fuel : Nat)
+    (hf : xs.length + 3 ≤ fuel) :
+    callBuiltin fuel st "map" [.builtin g, s] d = (.ok (.list (xs.map φ) none), st) := by
+  obtain ⟨n, rfl⟩ : ∃ n, fuel = n + 1 := ⟨fuel - 1, by omega⟩
+  rw [map_eq, hs]; simp only []
+  rw [mapLoop_pure g φ hg st d xs hx n (by omega)]
+
+theorem map_non_seq_error (fuel : Nat) (st : State) (f s : Val) (d : Nat) (hs : seqOf? s = none) :
+    ∃ e, callBuiltin (fuel + 1) st "map" [f, s] d = (.err e, st) := by
+  rw [map_eq, hs]; exact ⟨_, rfl⟩
+
+/-- `(apply f a … s)` calls `f` on `a …` followed by the elements of the last argument -/
+theorem apply_spreads_last (fuel : Nat) (st : State) (f : Val) (pre : List Val) {last tail} (d : Nat)
+    (hl : Seq last tail) :
+    callBuiltin (fuel + 1) st "apply" (f :: (pre ++ [last])) d = apply fuel st f (pre ++ tail) d := by
+  unfold callBuiltin
+  simp only [String.reduceEq, if_false, if_true, List.getLast?_append, List.getLast?_singleton,
+    Option.some_or, hl, List.dropLast_concat]
+
+theorem apply_last_not_seq_error (fuel : Nat) (st : State) (f : Val) (pre : List Val) {last} (d : Nat)
+    (hl : seqOf? last = none) :
+    ∃ e, callBuiltin (fuel + 1) st "apply" (f :: (pre ++ [last])) d = (.err e, st) := by
+  unfold callBuiltin
+  simp only [String.reduceEq, if_false, if_true, List.getLast?_append, List.getLast?_singleton,
+    Option.some_or, hl]
+  exact ⟨_, rfl⟩
+
+theorem update_eq (fuel : Nat) (st : State) (v i f : Val) (d : Nat) (hv : v ≠ .nil) :
+    callBuiltin (fuel + 1) st "update" [v, i, f] d = update1 fuel st v i f d := by
+  unfold callBuiltin
+  simp only [String.reduceEq, if_false, if_true]
+
+theorem update_nil (fuel : Nat) (st : State) (i f : Val) (d : Nat) :
+    callBuiltin (fuel + 1) st "update" [.nil, i, f] d = (.ok .nil, st) := by
+  unfold callBuiltin
+  simp only [String.reduceEq, if_false, if_true]
+
+/-- `(update m k f)` = `(assoc m k (f (get m k)))`, whatever `f` does to the state -/
+theorem update_map (fuel : Nat) (st : State) (m : List (String × Val)) (k : String) (f : Val) (d : Nat) :
+    callBuiltin (fuel + 2) st "update" [.map m, .str k, f] d =
+      (match apply fuel st f [(alookup k m).getD .nil] d with
+       | (.ok res, st') => (.ok (.map (ainsert k res m)), st')
+       | r => r) := by
+  rw [update_eq _ _ _ _ _ _ (by simp)]
+  unfold update1
+  simp only []
+  rcases apply fuel st f [(alookup k m).getD .nil] d with ⟨_ | _ | _, st1⟩ <;> simp only [assoc3_map]
+
+theorem update_wrong_kind (fuel : Nat) (st : State) (v i f : Val) (d : Nat)
+    (hv : v ≠ .nil) (hm : ∀ m, v ≠ .map m) (hx : ∀ xs p, v ≠ .vec xs p) :
+    ∃ e, callBuiltin (fuel + 2) st "update" [v, i, f] d = (.err e, st) := by
+  rw [update_eq _ _ _ _ _ _ hv]
+  unfold update1
+  cases v <;> first | exact absurd rfl hv | exact absurd rfl (hm _) | exact absurd rfl (hx _ _) | exact ⟨_, rfl⟩
+
+theorem update_in_eq (fuel : Nat) (st : State) (v : Val) (path p) (f : Val) (d : Nat) (hv : v ≠ .nil) :
+    callBuiltin (fuel + 1) st "update-in" [v, .vec path p, f] d = updateIn fuel st v path f d := by
+  unfold callBuiltin
+  simp only [String.reduceEq, if_false, if_true]
+
+theorem update_in_nil (fuel : Nat) (st : State) (path p) (f : Val) (d : Nat) :
+    callBuiltin (fuel + 1) st "update-in" [.nil, .vec path p, f] d = (.ok .nil, st) := by
+  unfold callBuiltin
+  simp only [String.reduceEq, if_false, if_true]
+
+theorem update_in_empty_path (fuel : Nat) (st : State) (v : Val) (p) (f : Val) (d : Nat) (hv : v ≠ .nil) :
+    callBuiltin (fuel + 2) st "update-in" [v, .vec [] p, f] d = (.ok v, st) := by
+  rw [update_in_eq _ _ _ _ _ _ _ hv]; unfold updateIn; rfl
+
+/-- a one-key path: `(update-in v [i] f) = (update v i f)` -/
+theorem update_in_one_key (fuel : Nat) (st : State) (v i : Val) (p) (f : Val) (d : Nat) (hv : v ≠ .nil) :
+    callBuiltin (fuel + 2) st "update-in" [v, .vec [i] p, f] d =
+      callBuiltin (fuel + 1) st "update" [v, i, f] d := by
+  rw [update_in_eq _ _ _ _ _ _ _ hv, update_eq _ _ _ _ _ _ hv]; unfold updateIn; rfl
+
+/-- a longer path on a map whose entry at the first key is a map (or nil/missing: then an empty map):
+    update the inner map along the rest of the path and `assoc` it back -/
+theorem update_in_step (fuel : Nat) (st : State) (m mb : List (String × Val)) (k : String) (i2 : Val)
+    (rest : List Val) (p) (f : Val) (d : Nat)
+    (hb : (alookup k m).getD .nil = .map mb ∨ ((alookup k m).getD .nil = .nil ∧ mb = [])) :
+    callBuiltin (fuel + 2) st "update-in" [.map m, .vec (.str k :: i2 :: rest) p, f] d =
+      (match updateIn fuel st (.map mb) (i2 :: rest) f d with
+       | (.ok inner, st') => (.ok (.map (ainsert k inner m)), st')
+       | r => r) := by
+  rw [update_in_eq _ _ _ _ _ _ _ (by simp)]
+  conv => lhs; unfold updateIn
+  rcases hb with hb | ⟨hb, rfl⟩ <;> simp only [hb, Bool.not_true, Bool.false_eq_true, if_false] <;>
+    (rcases updateIn fuel st _ (i2 :: rest) f d with ⟨_ | _ | _, st1⟩ <;> simp only [assoc3_map])
+
+/-- deviation: a vector stored inside a map (or a map inside a vector) cannot be traversed by `update-in` -/
+theorem update_in_mixed_kinds_error (fuel : Nat) (st : State) (m : List (String × Val)) (k : String)
+    (xs q) (i2 : Val) (rest : List Val) (p) (f : Val) (d : Nat)
+    (hb : (alookup k m).getD .nil = .vec xs q) :
+    ∃ e, callBuiltin (fuel + 2) st "update-in" [.map m, .vec (.str k :: i2 :: rest) p, f] d = (.err e, st) := by
+  rw [update_in_eq _ _ _ _ _ _ _ (by simp)]
+  conv => enter [1, e, 1]; unfold updateIn
+  simp only [hb, Bool.not_false, if_true]
+  exact ⟨_, rfl⟩
+
+/-! ### leftovers -/
+
+theorem conj_map (m kvs) (hne : kvs ≠ []) (hl : 2 * kvs.length < 1000) :
+    callOk "conj" (.map m :: flatKV kvs) (.map (insertAll m kvs)) := by
+  have hlen := flatKV_length kvs
+  have hpos : 0 < kvs.length := List.length_pos_iff.2 hne
+  have h1 : flatKV kvs ≠ [] := by intro e; rw [e] at hlen; simp at hlen; omega
+  rw [callOk, call_conj _ _ h1 (by omega)]
+  have : Core.body "conj" (.map m :: flatKV kvs) =
+      (if (flatKV kvs).length % 2 ≠ 0 then .goerr "conj called with on a hash map requires an odd number of arguments"
+       else conjMap (flatKV kvs) m) := rfl
+  have b : ¬ ((flatKV kvs).length % 2 ≠ 0) := by omega
+  rw [this, if_neg b, conjMap_flat]
+
+theorem conj_map_nodup (m : List (String × Val)) (xs : List Val) (h : (akeys m).Nodup) {r}
+    (e : callOk "conj" (.map m :: xs) r) : ∃ m', r = .map m' ∧ (akeys m').Nodup := by
+  have e' := body_of_callOk e
+  have : Core.body "conj" (.map m :: xs) =
+      (if xs.length % 2 ≠ 0 then .goerr "conj called with on a hash map requires an odd number of arguments"
+       else conjMap xs m) := rfl
+  rw [this] at e'
+  split at e'
+  · cases e'
+  · exact conjMap_nodup _ _ h e'
+
+theorem take_nonpositive {s xs} (h : Seq s xs) (n : Int) (hn : n ≤ 0) :
+    callOk "take" [.int n, s] (.list [] none) ∧ callOk "drop" [.int n, s] (.list xs none) := by
+  have e : n.toNat = 0 := by omega
+  have h1 := take_seq h n
+  have h2 := drop_seq h n
+  rw [e] at h1 h2
+  exact ⟨by simpa using h1, by simpa using h2⟩
+
+theorem take_drop_append {s xs} (h : Seq s xs) (n : Int) :
+    ∃ a b, callOk "take" [.int n, s] (.list a none) ∧ callOk "drop" [.int n, s] (.list b none) ∧ a ++ b = xs :=
+  ⟨_, _, take_seq h n, drop_seq h n, List.take_append_drop _ _⟩
+
+theorem take_last_drop_last {s xs} (h : Seq s xs) (n : Int) :
+    ∃ a b, callOk "drop-last" [.int n, s] (.list a none) ∧
+      callOk "take-last" [.int n, s] (if b.isEmpty then .nil else .list b none) ∧ a ++ b = xs :=
+  ⟨_, _, drop_last_seq h n, take_last_seq h n, List.take_append_drop _ _⟩
+
+theorem take_length {s xs} (h : Seq s xs) (n : Nat) (hn : n ≤ xs.length) :
+    ∃ a, callOk "take" [.int n, s] (.list a none) ∧ a.length = n :=
+  ⟨_, take_seq h n, by simp; omega⟩
+
+theorem take_last_length {s xs} (h : Seq s xs) (n : Nat) (h0 : 0 < n) (hn : n ≤ xs.length) :
+    ∃ b, callOk "take-last" [.int n, s] (.list b none) ∧ b.length = n := by
+  refine ⟨xs.drop (xs.length - n), ?_, by simp; omega⟩
+  have := take_last_seq h n
+  have e : ((n : Int)).toNat = n := by omega
+  rw [e] at this
+  have ne : (xs.drop (xs.length - n)).isEmpty = false := by
+    rw [Bool.eq_false_iff]; intro he
+    have := List.isEmpty_iff.1 he
+    have hl : (xs.drop (xs.length - n)).length = n := by simp; omega
+    rw [this] at hl; simp at hl; omega
+  rw [ne] at this; simpa using this
+
+theorem empty_iff_count_zero (v : Val) (b : Bool) (h : callOk "empty?" [v] (.bool b)) :
+    ∃ n : Nat, callOk "count" [v] (.int n) ∧ (b = true ↔ n = 0) := by
+  cases v with
+  | nil => cases h; exact ⟨0, rfl, by simp⟩
+  | list xs p => cases h; exact ⟨xs.length, rfl, by simp [List.isEmpty_iff]⟩
+  | vec xs p => cases h; exact ⟨xs.length, rfl, by simp [List.isEmpty_iff]⟩
+  | map m => cases h; exact ⟨m.length, rfl, by simp [List.isEmpty_iff]⟩
+  | set s => cases h; exact ⟨s.length, rfl, by simp [List.isEmpty_iff]⟩
+  | _ => cases h
